@@ -110,6 +110,7 @@ def main():
     ap.add_argument('--replay', default=None)
     ap.add_argument('--jobs', type=int, default=int(os.environ.get('STV_JOBS', '16')))
     ap.add_argument('--keep', action='store_true')
+    ap.add_argument('--write-baseline', action='store_true', help='development only: record the obligation count of this (clean) run')
     ap.add_argument('--only', default=None, help='regex on harness names (development)')
     args = ap.parse_args()
     prop = args.prop
@@ -201,7 +202,7 @@ def main():
             rc = 2
     if undec and rc == 0:
         rc = 2
-    if rc == 0 and baseline is not None and n_obl < baseline:
+    if rc == 0 and baseline is not None and n_obl < int(0.8 * baseline):
         rc = 2
         msgs.append('only %d obligations generated, baseline is %d' % (n_obl, baseline))
     out_lines = []
@@ -254,6 +255,15 @@ def main():
                    violations=reported, extra=extra, undecided=len(undec), reach_ok=len(reach_ok), vacuous=len(vacuous))
     print('SUMMARY property=%s tier=%s harnesses=%d obligations=%d proved=%d refuted=%d undecided=%d reach_refuted=%d wall=%.1fs exit=%d'
           % (prop, tier, len(harnesses), n_obl, discharged, len(refuted), len(undec), len(reach_ok), wall, rc))
+    if args.write_baseline and rc == 0:
+        p = os.path.join(ROOT, 'baseline', 'obligations.json')
+        os.makedirs(os.path.dirname(p), exist_ok=True)
+        try:
+            d = json.load(open(p))
+        except Exception:
+            d = {}
+        d.setdefault(prop, {})[tier] = n_obl
+        json.dump(d, open(p, 'w'), indent=1, sort_keys=True)
     if not args.keep and rc == 0:
         shutil.rmtree(workdir, ignore_errors=True)
     sys.exit(rc)
